@@ -143,6 +143,13 @@ def validateIdx (lineIdx : Nat) (last : Option Nat) (fSize : Nat) : Option Err :
   else if lineIdx = fSize then some .tooLate
   else none
 
+/-- `start + (end-start)/2` as Go computes it in `int64` (division truncates toward
+zero), for non-negative operands: on arbitrary content `end` may drop below
+`start` (a probe line that begins before `start`), and then the probe moves
+left of `start`. -/
+def midpoint (start «end» : Nat) : Nat :=
+  if start ≤ «end» then start + («end» - start) / 2 else start - (start - «end») / 2
+
 /-- The `for` loop of `seekTS`.  `tsOf` is `readQLogTimestamp`.  The loop runs at
 most `maxDepth` times because of its own guard, so `fuel = maxDepth` is never
 exhausted (`seekLoop_ne_fuel`).  Result `(lineIdx, stop, depth)`. -/
@@ -162,7 +169,7 @@ def seekLoop (P : Params) (f : File) (tsOf : Bytes → Int) (target : Int) :
         else
           let start' := if ts > target then start else lineEndIdx
           let end' := if ts > target then lineIdx else «end»
-          let probe' := start' + (end' - start') / 2
+          let probe' := midpoint start' end'
           let depth' := depth + 1
           if depth' ≥ maxDepth then .error .depth
           else seekLoop P f tsOf target fuel start' end' probe' (some lineIdx) depth'
